@@ -29,6 +29,10 @@ pub enum Op {
     SmallBuf(bool),
     Oversize(bool),
     SetNonce(bool, u64),
+    /// the expected message into a buffer that is too small by k bytes (255 = empty buffer)
+    SmallBufBy(bool, u8),
+    /// garbage of a specific length class: 0..=15 bytes, exactly 16, exactly 65535
+    GarbageLen(bool, u16),
 }
 
 #[derive(Clone, Debug, Serialize, Deserialize)]
@@ -62,7 +66,9 @@ fn oracle(c: &Case, acc: &mut Acc) -> CaseResult {
             continue;
         }
         for j in 0..k {
-            let payload = expand(c.seed, (d * 100 + j) as u64, 1 + (j * 7) % 23);
+            // mostly small payloads; every 5th message is empty, every 7th is large
+            let plen = if j % 5 == 4 { 0 } else if j % 7 == 6 { 3000 + j } else { 1 + (j * 7) % 23 };
+            let payload = expand(c.seed, (d * 100 + j) as u64, plen);
             let w = if d == 0 { &mut ti } else { &mut tr };
             let m = t_write(w, &payload, payload.len() + 16).map_err(|x| Fail::setup(format!("{name}: write: {}", e(&x))))?;
             sent[d].push((payload, m));
@@ -75,7 +81,7 @@ fn oracle(c: &Case, acc: &mut Acc) -> CaseResult {
     let mut accepted = 0;
     for (step, op) in c.ops.iter().enumerate() {
         let d = match op {
-            Op::Deliver(d, _) | Op::Garbage(d, _) | Op::SmallBuf(d) | Op::Oversize(d) | Op::SetNonce(d, _) => *d as usize,
+            Op::Deliver(d, _) | Op::Garbage(d, _) | Op::SmallBuf(d) | Op::Oversize(d) | Op::SetNonce(d, _) | Op::SmallBufBy(d, _) | Op::GarbageLen(d, _) => *d as usize,
         };
         if d == 1 && oneway {
             continue;
@@ -112,8 +118,27 @@ fn oracle(c: &Case, acc: &mut Acc) -> CaseResult {
                 ensure!(res.is_err(), "{ctx}: {}-byte garbage accepted", l);
                 seen_reject[d] = true;
             },
-            Op::SmallBuf(_) => {
+            Op::SmallBufBy(_, by) => {
                 if rn[d] < k as u64 {
+                    let (payload, m) = &sent[d][rn[d] as usize];
+                    if !payload.is_empty() {
+                        let short = if *by == 255 { payload.len() } else { (*by as usize % payload.len()) + 1 };
+                        let mut buf = vec![0u8; payload.len() - short];
+                        let res = r.read_message(m, &mut buf);
+                        ensure!(res.is_err(), "{ctx}: expected message accepted into a buffer {short} byte(s) too small");
+                        seen_reject[d] = true;
+                    }
+                }
+            },
+            Op::GarbageLen(_, l) => {
+                let m = expand(c.seed, 700 + step as u64, *l as usize);
+                let mut buf = vec![0u8; 70000];
+                let res = r.read_message(&m, &mut buf);
+                ensure!(res.is_err(), "{ctx}: {}-byte garbage accepted", l);
+                seen_reject[d] = true;
+            },
+            Op::SmallBuf(_) => {
+                if rn[d] < k as u64 && !sent[d][rn[d] as usize].0.is_empty() {
                     let (payload, m) = &sent[d][rn[d] as usize];
                     let mut buf = vec![0u8; payload.len() - 1];
                     let res = r.read_message(m, &mut buf);
@@ -155,6 +180,7 @@ fn oracle(c: &Case, acc: &mut Acc) -> CaseResult {
 fn alphabet(k: u8) -> Vec<Op> {
     let mut a: Vec<Op> = (0..k).map(|j| Op::Deliver(false, j)).collect();
     a.push(Op::Garbage(false, 40));
+    a.push(Op::GarbageLen(false, 7));
     a.push(Op::SmallBuf(false));
     a.push(Op::Oversize(false));
     a
@@ -211,10 +237,12 @@ pub fn run(ctx: &Ctx) {
                 8 => (any::<bool>(), 0u8..8).prop_map(|(d, j)| Op::Deliver(d, j)),
                 1 => (any::<bool>(), 0u8..80).prop_map(|(d, l)| Op::Garbage(d, l)),
                 1 => any::<bool>().prop_map(Op::SmallBuf),
+                1 => (any::<bool>(), prop_oneof![Just(1u8), Just(15u8), Just(16u8), Just(255u8), any::<u8>()]).prop_map(|(d, k)| Op::SmallBufBy(d, k)),
+                1 => (any::<bool>(), prop_oneof![4 => 0u16..16, 2 => Just(16u16), 1 => Just(17u16), 1 => Just(65535u16)]).prop_map(|(d, l)| Op::GarbageLen(d, l)),
                 1 => any::<bool>().prop_map(Op::Oversize),
                 2 => (any::<bool>(), prop_oneof![4 => 0u64..8, 1 => Just(u64::MAX), 1 => Just(u64::MAX - 1), 1 => any::<u64>()]).prop_map(|(d, v)| Op::SetNonce(d, v)),
             ];
-            (0usize..5, 0usize..24, any::<bool>(), 1u8..8, prop::collection::vec(op, 0..24), any::<u64>()).prop_map(move |(p, suite_idx, ring, k, ops, s)| Case {
+            (0usize..5, 0usize..24, any::<bool>(), prop_oneof![6 => 1u8..8, 1 => 8u8..16], prop::collection::vec(op, 0..30), any::<u64>()).prop_map(move |(p, suite_idx, ring, k, ops, s)| Case {
                 pattern: pats[p].to_string(),
                 suite_idx,
                 backend: if ring { Backend::RingFirst } else { Backend::Default },
